@@ -24,7 +24,7 @@ var (
 	Schemes          = []string{"http", "https", "mailto", "ftp", "data", "javascript", "tel", "x-app", "HTTP"}
 	StyleProps       = []string{"color", "width", "background", "font-family", "text-align", "grid", "margin", "display", "x-prop", "COLOR"}
 	URLCallbacks     = []string{"always", "never", "noquery", "host=example.com", "host=a.b", "opaqueprefix=image/"}
-	Rewriters        = []string{"id", "sethost=cdn.example", "clearquery", "proxy=proxy.example"}
+	Rewriters        = []string{"id", "sethost=cdn.example", "clearquery", "proxy=proxy.example", "relproxy"}
 	StyleHandlers    = []string{"always", "never", "noparen", "eq=red", "eq=1px"}
 	StyleEnums       = [][]string{{"red", "blue"}, {"LEFT", "right"}, {"1px", "2px", "auto"}, {"straße", "K"}}
 )
@@ -178,12 +178,14 @@ var (
 		"http://a.b/p%41th", "http://%41.b/", "http://a.b/#fr ag", "http://a.b/#%zz", "*", "http://host/a;b,c", "https://example.com/x y", "%", "http://a.b/\x00", "http://a.b/\x7f",
 		"/search?q=&amp;lt;", "http://example.com/p?x=&amp;amp;y", "?a=1&amp;copy=2", "http://a.b/?x=&lt;y", "/a&#47;b", "data: text/plain", "data:image/png;base64 iVBOR", "data:\ttext/plain", "data:x y,z",
 		"data:image/gif;base64,R0lG ODlh", "DATA:image/png;base64,AAAA", "http://a.b/?q=%26amp%3B", "mailto:a@b.c?subject=x&amp;body=y",
+		"javascript:1/alert(1)", "JavaScript:80/alert(1)", "data:443/text/html,x", "vbscript:8080", "localhost:8080/path", "x:1", "/%2Fexample.com/caf\u00e9", "/%2fevil.example/a|b", "%2F%2Fexample.com/x^y", "/%2F%2Fa.b/\"q\"",
 		"http://a.b/?a%26b=1", "https://a.b/p?x%3Cy=1&amp;a%22b=2", "http://a.b/?a&amp;b=1&amp;%3C=2", "http://a.b/?%27=1"}
 	RelPool    = []string{"", "nofollow", "noopener", "noreferrer", "nofollow noopener", "xnofollowx", "NOFOLLOW", "author", "a b c", "noopenerx", "no follow"}
 	TargetPool = []string{"_blank", "_BLANK", "_self", "", "x", " _blank"}
 	StylePool  = []string{"color: red", "color:red;", "COLOR: RED", "color: red; width: 1px", "width:1px;color:blue;x-prop:y", "color: \\72 ed",
 		"color: r\\65 d", "background: url(javascript:alert(1))", "background: url('http://a.b/c.png')", "color: red !important", "color: red ! IMPORTANT ;",
-		"-webkit-color: red", "-moz--webkit-width: 2px", "mso-color: blue", "font-family: 'a b', serif", "font-family: \\110000 x", "color: expression(alert(1))",
+		"-webkit-color: red", "-moz--webkit-width: 2px", "col-o-or: red", "co-ms-lor: red", "widmso-th: 1px", "-webkit-col-o-or: red", "color-o-: red", "transfor-ms-m: none", "-o-col-tc-or: blue",
+		"font-family: \\1f4a9, serif", "font-family: \\1f4a9\\1f4a9, serif", "color: \\1f600\\1f600", "mso-color: blue", "font-family: 'a b', serif", "font-family: \\110000 x", "color: expression(alert(1))",
 		"text-align: LEFT", "text-align: right;;", ";color:red", "color", "color:", ":red", "color: red; } x { y: z", "{color:red}", "color: red /* c */", "color: /* c */ red",
 		"color: red; /* unclosed", "color: 'unclosed", "width: 1px; grid: 1px 1px 1px", "margin: 1px 2px", "display: none", "color:red;color:blue", "color: re\\d", "color: red\\9",
 		"x-prop: straSSe", "x-prop: STRAßE", "x-prop: K", "color: red; width: 1PX ", "color:\tred", "color: red\r\nwidth:1px", "color: red\x00", "width: 10%", "color: #fff", "color: rgb(1,2,3)",
